@@ -76,10 +76,15 @@ Definition site_ok (s : string * (string * string)) : bool :=
 Definition all_sites_ok : bool := forallb site_ok inplace_sites.
 Definition offending_sites := filter (fun s => negb (site_ok s)) inplace_sites.
 
+(* C16: seeding facts *)
+Definition seeding_ok : bool :=
+  andb create_uvd_reseeds_before_drawing (andb kinit_receives_seed (andb kmeans_uses_no_global_rng
+  (andb gmm_passes_seed_to_kmeans (andb gmm_uses_no_global_rng wccn_uses_no_rng)))).
+
 (* one tuple with every generated obligation, for diagnostics *)
 Definition all_generated_obligations :=
   (("extraction_error", extraction_error), ("gmm_ml_copyback_ok", gmm_ml_copyback_ok), ("gmm_map_copyback_ok", gmm_map_copyback_ok),
    ("ivector_copyback_ok", ivector_copyback_ok), ("gmm_settings_ok", gmm_settings_ok), ("gmm_keys_all_read", gmm_keys_all_read),
    ("gmm_keys_nodup", gmm_keys_nodup), ("h5_gmm_trainer_decoded", h5_gmm_trainer_decoded),
    ("gmm_floors_before_variances", gmm_floors_before_variances), ("gmm_post_from_own_keys", gmm_post_from_own_keys),
-   ("stats_fields_ok", stats_fields_ok), ("all_sites_ok", all_sites_ok), ("offending_sites", offending_sites)).
+   ("stats_fields_ok", stats_fields_ok), ("all_sites_ok", all_sites_ok), ("seeding_ok", seeding_ok), ("offending_sites", offending_sites)).
